@@ -944,4 +944,40 @@ theorem unzeroed_bind_depends_on_history :
         [("name".toList, "\"\"".toList)] [{ name := "name".toList, present := false, zero := "\"\"".toList }] := by
   decide
 
+/-! ## 10. the oracle's case folding is the standard one (review C14-3)
+
+`lastWins` / `specGet` fold case with the same `lower` the model uses. `lower` is a 26-entry table; here it is proved
+equal to Lean core's `Char.toLower` on **every** character, so the oracle's notion of "case-insensitively" is the
+standard ASCII one and not an artefact of the model. (`normalize` itself is characterised through lookups by
+`normalize_lookup` and `case_insensitive`; an oracle that folds case without `normalize` is not done.) -/
+
+theorem lemma_lowerChar_table : ∀ n : Fin 128, lowerChar (Char.ofNat n.val) = (Char.ofNat n.val).toLower := by decide
+
+theorem lowerChar_is_toLower (c : Char) : lowerChar c = c.toLower := by
+  by_cases h : c.toNat < 128
+  · have := lemma_lowerChar_table ⟨c.toNat, h⟩
+    simpa [Char.ofNat_toNat] using this
+  · -- neither the table nor Char.toLower touches a non-ASCII character
+    have h1 : c.toLower = c := by
+      unfold Char.toLower
+      split
+      · rename_i hh
+        exfalso; apply h
+        have h2 : c.val.toNat ≤ 90 := by
+          have := UInt32.le_iff_toNat_le.mp hh.2
+          simpa using this
+        simp only [Char.toNat]; omega
+      · rfl
+    rw [h1]
+    unfold lowerChar
+    have : tableLookup c upperTable = none := by
+      unfold upperTable
+      simp only [tableLookup]
+      repeat (first | (rw [if_neg (by intro e; apply h; rw [← e]; decide)]) | rfl)
+    rw [this]
+
+theorem lower_is_toLower (s : Bytes) : lower s = s.map Char.toLower := by
+  unfold lower
+  exact List.map_congr_left fun c _ => lowerChar_is_toLower c
+
 end Rivaas.C14
